@@ -160,6 +160,9 @@ func (h *harness) mirrorInit() {
 	}
 	h.mu.Lock()
 	h.trees["beta"] = cloneEntry(h.trees["alpha"])
+	if !h.preserve["beta"] {
+		h.trees["beta"] = withoutExec(h.trees["beta"])
+	}
 	h.mu.Unlock()
 }
 
@@ -349,7 +352,14 @@ func (e *modelEndpoint) Transition(ctx context.Context, transitions []*core.Chan
 		cur := lookup(h.trees[e.side], t.Path)
 		// A real endpoint refuses to touch content that differs from what the
 		// scan recorded (C08); the model does the same.
-		if !deepEqual(syncPart(cur), t.Old) || hasUnsync(cur) {
+		// (A filesystem that cannot store executability holds no such bits:
+		// the expectation is compared without them, as the real endpoint
+		// compares cached metadata rather than the propagated bit.)
+		expectedOld, curSync := t.Old, syncPart(cur)
+		if !h.preserve[e.side] {
+			expectedOld, curSync = withoutExec(t.Old), withoutExec(curSync)
+		}
+		if !deepEqual(curSync, expectedOld) || hasUnsync(cur) {
 			results = append(results, cloneEntry(t.Old))
 			problems = append(problems, &core.Problem{Path: t.Path, Error: "content changed since scan"})
 			h.ideal = false
@@ -377,10 +387,14 @@ func (e *modelEndpoint) Transition(ctx context.Context, transitions []*core.Chan
 		if !deepEqual(result, t.New) {
 			problems = append(problems, &core.Problem{Path: t.Path, Error: "injected partial outcome"})
 		}
+		stored := cloneEntry(result)
+		if !h.preserve[e.side] {
+			stored = withoutExec(result)
+		}
 		if t.Path == "" {
-			h.trees[e.side] = cloneEntry(result)
+			h.trees[e.side] = stored
 		} else if parent := parentPath(t.Path); lookup(h.trees[e.side], parent) != nil && isDirLike(lookup(h.trees[e.side], parent)) {
-			h.trees[e.side], _ = setAt(h.trees[e.side], t.Path, cloneEntry(result))
+			h.trees[e.side], _ = setAt(h.trees[e.side], t.Path, stored)
 		} else {
 			// Parent missing on the model "disk": nothing can be created.
 			result = nil
@@ -397,6 +411,13 @@ func (e *modelEndpoint) Transition(ctx context.Context, transitions []*core.Chan
 	}
 	h.s.Logf("ctl."+e.side, "transition %d changes -> %s", len(transitions), render(h.trees[e.side]))
 	return results, problems, false, nil
+}
+
+// withoutExec returns a copy of an entry with every executable bit cleared.
+func withoutExec(e *core.Entry) *core.Entry {
+	c := cloneEntry(e)
+	walk(c, "", func(_ string, x *core.Entry) { x.Executable = false })
+	return c
 }
 
 func parentPath(p string) string {
@@ -914,6 +935,12 @@ func (h *harness) clientOp(actor string, op simkit.Op) {
 		done(err)
 	case "reset":
 		err := mgr.Reset(ctx, h.sel, "")
+		// History may be gone (even when resuming afterwards failed): results
+		// reported before the reset are no longer expected in the next
+		// ancestor (C05 rule 3).
+		h.mu.Lock()
+		h.pending = map[string][]pendingResult{}
+		h.mu.Unlock()
 		if err == nil {
 			if anc, aerr := h.loadArchive(); aerr != nil || anc != nil {
 				h.mu.Lock()
